@@ -221,7 +221,7 @@ func bigReaderCases(r *rand.Rand, level int) {
 				continue
 			}
 			few := (i+codec)%3 == 0
-			if codec > 0 {
+			if codec > 0 && !(level < 2 && s >= 200000 && codec != 1+i%4 && codec != 1+(i+2)%4) {
 				magic := int8(1)
 				if (i+codec)%4 == 0 {
 					magic = 0
@@ -238,6 +238,9 @@ func bigReaderCases(r *rand.Rand, level int) {
 						it, err := g.bigWrapper(1, 1+i%4, s, bigCount(g.r, s, few))
 						return []gItem{it}, err
 					}})
+			}
+			if level < 2 && s >= 100000 && codec != 0 && codec != 1+i%4 {
+				continue // quick tier: the largest v2 batches with two of the five codecs
 			}
 			plans = append(plans, bigPlan{tags: []string{fmt.Sprintf("size=%d", s), "bigbatch"},
 				build: func(g *readerGen) ([]gItem, error) {
